@@ -68,6 +68,73 @@ CHECKS["C14"] = dict(engine="AuthCache", design_ref="§5 C14, App. F.3",
          "probes are not enabled (the probe exception is not exercised); no order among user layers is asserted; --auth + global provider is excluded "
          "(the engine deliberately unregisters the global provider)")
 
+CHECKS["C19"] = dict(engine="Hooks", design_ref="§5 C19",
+    technique="TLA+ Hooks.tla / HooksAuth.tla (registration histories as actions) model-checked by TLC; every bounded history replayed into the real "
+              "dispatchers / auth storages; observed hook x operation matrix judged by HooksJudge.tla",
+    text="Explicit TLA+ model of hook and auth registration: one action per decorator form and per unregistration, on the global, schema and test scopes. "
+         "Design invariants are model-checked on every enumerated history (the oracle depends only on a hook's own registration, unfiltered hooks apply everywhere, "
+         "unregister removes exactly that hook). Every bounded history (<=3 registrations, <=1 unregistration; <=3 auth registrations; quick 18 768 + 2 548, thorough "
+         "307 325) is replayed into the real dispatchers or storages; the observed hook/provider x operation matrix, read from cases generated by the real strategy "
+         "with marker-writing hooks, is compared with the spec's and re-judged by TLC. Exhaustive within the bound.",
+    note=COMMON_TRUST + "; a HookDispatcher(scope=GLOBAL) created per history stands for the import-time global dispatcher; one generated case per (history, "
+         "operation); which of several applicable auth providers wins is left undecided (soundness only); GraphQL not covered")
+CHECKS["C07"] = dict(engine="Filters", design_ref="§5 C07",
+    technique="TLA+ Filters.tla + FiltersMatch.tla (three-valued selection oracle) model-checked by TLC; every include/exclude filter set x front door replayed "
+              "through the real API; stratified live runs (pytest, engine, CLI) against the scripted server; all observations judged by FiltersJudge.tla",
+    text="The TLA+ spec enumerates all include/exclude filter sets (<=2+<=2 filters, total <=3 quick / <=4 thorough) over a 23-filter catalogue (path/method/name/"
+         "tag/operation-id x value/list/regex, expressions, deprecated, conjunctions) through the python, CLI and lazy-fixture doors, with the selection oracle "
+         "written from the property text; design invariants (exclude wins, monotonicity, lazy door keeps the fixture's excludes) are model-checked. Every element "
+         "(12 674 quick / 76 879 thorough) is built with the real API and observed at get_all_operations(), statistic and as_state_machine(); stratified samples "
+         "run under real pytest, the real engine and the real CLI with the server log as ground truth (incl. link-derived requests); all observations are re-judged by TLC.",
+    note=COMMON_TRUST + "; harness/compat.py enables link routing in the driver process and the CLI child; requests are mapped to operations by method and path "
+         "template; an upper-case method key is treated as not an operation; three-valued gaps (!= on an unresolvable pointer, lazy schemas with includes on both "
+         "sides) are skipped; GraphQL not covered")
+CHECKS["C04"] = dict(engine="Responses", design_ref="§5 C04",
+    technique="TLA+ Responses.tla (expectation oracle over the shared OasSchema.tla validity oracle) checked by TLC; TLC-enumerated (definition, response) pairs "
+              "replayed through the real conformance checks; verdict sets judged by ResponsesJudge.tla",
+    text="For every (response definition, received response) pair of a TLC-enumerated family the set of failure kinds reported by the four real conformance checks "
+         "through Case.validate_response equals the expectation computed by an explicit TLA+ specification written from the OpenAPI and HTTP standards, in both "
+         "directions (no miss, no false alarm, no crash). The family covers exact/NXX/default keys (<=3), <=2 media types with different schemas, <=2 headers, $ref'd "
+         "responses, schemas and headers, nullable and writeOnly schemas, OpenAPI 2.0 and 3.0; received responses vary over 5 statuses, 7 Content-Type shapes and 14 "
+         "bodies (quick 33 772 pairs, thorough 295 250). Kinds the standards leave open are U and never judged. Disagreeing observations and a random sample of "
+         "agreeing ones are re-judged by TLC.",
+    note=COMMON_TRUST + "; hand-built core.transport.Response objects; OpenAPI 3.1 and wildcard media ranges are not in the family; HeaderSchema is told apart from "
+         "body JsonSchemaError by the failure title; Swagger 2.0 response headers are treated as never required")
+CHECKS["C17"] = dict(engine="Examples", design_ref="§5 C17",
+    technique="TLA+ Examples.tla (AllExamples by placement, round-robin combination model-checked) + OasSchema.tla; TLC-enumerated placement descriptors run through "
+              "the real add_examples and, for a sample, the real engine over the wire; every observation judged by ExamplesJudge.tla",
+    text="For every operation descriptor of a TLC-enumerated family (<=3 parameters with 0-3 examples each in 9 placement forms, <=2 JSON media types with 14 body "
+         "placement forms, OpenAPI 2.0 x- forms, required inputs lacking examples, special-character texts, one example HTTP cannot carry; quick 954, thorough ~5 700) "
+         "every example of the document occurs unchanged in at least one examples-phase request; required inputs are never missing and inputs without examples are "
+         "schema-valid per the OasSchema oracle; an operation without examples sends nothing and is reported skipped. All descriptors are observed through the real "
+         "add_examples; a stratified sample also runs through the real engine against the scripted server whose log is the ground truth. Every observation is judged by TLC.",
+    note=COMMON_TRUST + "; the fast path assumes the attached explicit examples are what gets sent (validated on the wire sample only); example values are scalars "
+         "and small JSON objects; form-urlencoded/multipart/text bodies, externalValue and array/object parameters are not in the family")
+CHECKS["C16"] = dict(engine="Reports", design_ref="§5 C16",
+    technique="TLA+ Reports.tla (event-history machine of the reporters) + ReportsYaml.tla (fold automata for the emitted YAML subset, base64, UTF-8); TLC-enumerated "
+              "histories and strings replayed into the real ExecutionContext / JunitXMLHandler / CassetteWriters; ReportsTrace.tla and ReportsYamlJudge.tla judge",
+    text="TLC enumerates every finished event history of Reports.tla within the bound (ScenarioFinished / NonFatalError / EngineFinished over 2 labels x 2 failure "
+         "identities x 3 metadata shapes x 8 scenario shapes; quick 1 999, thorough 60 319). Each is replayed as real engine events into the real on_event, "
+         "JunitXMLHandler and both CassetteWriters; ReportsTrace.tla re-runs the spec actions and requires after every event that the projected Statistic equals the "
+         "machine state, no crash, a JUnit test case per label with exactly the failures first discovered under it, and cassette entries that are exactly the delivered "
+         "exchanges. ReportsYaml.tla states the YAML subset the hand-written VCR writer emits as fold automata; TLC enumerates all strings of length <=2 (quick) / <=3 "
+         "(thorough) over 16 hostile characters in every user-controlled field; the raw cassette is scanned line by line in TLA+ (well-formedness and "
+         "Unquote(Scan(line)) = field); HAR and JUnit are compared field by field, base64 byte-exact. The YAML model is cross-checked against PyYAML on every run.",
+    note=COMMON_TRUST + "; hand-built Recorder/Case/PreparedRequest/Response objects stand for engine output; json and xml.etree project HAR and JUnit; PyYAML only "
+         "cross-checks; cassettes of text fields containing lone surrogates are not judged; bodies that are not valid UTF-8 are judged only under preserve-bytes")
+CHECKS["C15"] = dict(engine="Sanitize", design_ref="§5 C15",
+    technique="TLA+ Sanitize.tla (Sensitive(name, cfg), routes x sinks flow matrix) enumerated by TLC; unit-level sanitizers and end-to-end CLI subprocess runs with a "
+              "canary per route; observed present[route, sink] matrix judged by SanitizeJudge.tla",
+    text="Sanitize.tla defines Sensitive(name, cfg) from the property text (lower-cased name in the keys, or some marker is a substring) with the default lists owned "
+         "by the spec, routes (user header, --auth, generated header/query/cookie parameter, URL userinfo, response Set-Cookie, response header) x sinks (console, curl "
+         "sample, JUnit, VCR, HAR) and the expectation: sanitize and sensitive carrier => absent, otherwise present where the sink carries the field. TLC enumerates all "
+         "(name, cfg) pairs of a 55-name pool x 3 configurations and the full flow matrix. Every pair runs through the real sanitize_value / sanitize_url / "
+         "as_curl_command; end to end the real CLI runs in subprocesses against the scripted server with a unique canary per route, all report formats, sanitize on / "
+         "off / custom keys / custom markers; stdout and every artifact are scanned for each canary (plain, percent-encoded, any-alignment base64) and the matrix is "
+         "judged by TLC in both directions (leak and over-redaction).",
+    note=COMMON_TRUST + "; a secret is recognised in plain, percent-encoded and base64 forms only; the server log decides which routes were exercised; the MustCarry "
+         "table (which sink shows which field) is part of the spec; response and request bodies are outside the property's carriers")
+
 REASON_PENDING = "no check registered yet: spec/harness for this property is still being built (DESIGN.md §10 build order); nothing is claimed"
 
 
